@@ -458,8 +458,9 @@ Cands(S, k) ==
                                         d \in Delegators, v \in Validators, v2 \in Validators, am \in Amts} :
                                  /\ x.val # x.val2 /\ S.vdl[x.del][x.val] >= x.amt
                                  /\ ~\E r \in S.red : r.who = x.del /\ r.dst = x.val}
-    [] k = "RelayPay" -> {x \in {[a |-> "RelayPay", cons |-> c, spec |-> s, prov |-> p, cu |-> n] :
-                                   c \in Consumers, s \in Specs, p \in Providers, n \in (IF Tiny THEN {60} ELSE {10, 60, 150})} :
+    [] k = "RelayPay" -> {x \in {[a |-> "RelayPay", cons |-> c, spec |-> s, prov |-> p, cu |-> n, qos |-> q] :
+                                   c \in Consumers, s \in Specs, p \in Providers,
+                                   n \in (IF Tiny THEN {1, 60} ELSE {1, 10, 60, 150}), q \in {"none", "bad"}} :
                             /\ S.subs[x.cons].on /\ S.subs[x.cons].since <= S.estart
                             /\ S.prov[x.prov][x.spec].on /\ ~S.prov[x.prov][x.spec].frozen
                             /\ S.prov[x.prov][x.spec].since <= S.estart}
@@ -577,7 +578,10 @@ ApplyTx(S, x) ==
          LET sb == S.subs[x.cons]
              old == {y \in S.cu : y.c = x.cons /\ y.blk = sb.cblk /\ y.p = x.prov /\ y.s = x.spec}
              prev == SumF([y \in old |-> y.n])
-         IN [S EXCEPT !.cu = (@ \ old) \cup {[c |-> x.cons, blk |-> sb.cblk, p |-> x.prov, s |-> x.spec, n |-> prev + x.cu]},
+             \* a QoS report scoring below 1 scales the rewarded CU: cu * (score * QoSWeight + 1 - QoSWeight) truncated;
+             \* "bad" = availability 0.1 -> factor 0.73, so a 1-CU relay leaves a tracked-CU entry whose value is 0
+             got == IF x.qos = "bad" THEN (x.cu * 73) \div 100 ELSE x.cu
+         IN [S EXCEPT !.cu = (@ \ old) \cup {[c |-> x.cons, blk |-> sb.cblk, p |-> x.prov, s |-> x.spec, n |-> prev + got]},
                       !.ipcu = IF x.cons \in S.ip.subs THEN @ \cup {[p |-> x.prov, s |-> x.spec]} ELSE @]
     [] x.a = "IprpcSetData" -> [S EXCEPT !.ip.on = TRUE, !.ip.cost = x.amt, !.ip.subs = @ \cup {x.cons}]
     [] x.a = "IprpcFund" ->
